@@ -1,0 +1,33 @@
+//go:build verif
+
+// Contracts for the deductive verifier in /verif (govc). Comment-only.
+
+package master
+
+//@ # ---- replica placement arithmetic (C18) ---------------------------------------------------------
+//@ pure ridx(first int, shift int, j int, n int) int = (first + 1 + (shift + j) % (n - 1)) % n
+//@ func replicaIndex
+//@   prop C18
+//@   arith math
+//@   requires numOfNode >= 2 && numOfNode <= 1000000 && firstReplicaIndex >= 0 && firstReplicaIndex < numOfNode && secondReplicaShift >= 0 && secondReplicaShift <= 1000000000 && replicaIndex >= 0 && replicaIndex <= 1000000
+//@   ensures[in_range] result >= 0 && result < numOfNode
+//@   ensures[not_first_replica] result != firstReplicaIndex
+//@   ensures[def] result == ridx(firstReplicaIndex, secondReplicaShift, replicaIndex, numOfNode)
+//@ end
+//@ lemma ridx_injective prop C18: all(f, "int", all(s, "int", all(j1, "int", all(j2, "int", all(n, "int", (n >= 2 && f >= 0 && f < n && s >= 0 && j1 >= 0 && j1 < j2 && j2 < n - 1) ==> ridx(f, s, j1, n) != ridx(f, s, j2, n))))))
+
+//@ # ---- leader election: the first alive replica ------------------------------------------------------
+//@ globalinv constants.ErrShardNotFound != nil && constants.ErrNoLiveReplica != nil
+//@ func replicaLeaderElector.ElectLeader
+//@   prop C18
+//@   arith math
+//@   requires shardAssignment != nil && shardAssignment.Shards != nil && all(k, "models.ShardID", has(shardAssignment.Shards, k) ==> shardAssignment.Shards[k] != nil)
+//@   modifies nothing
+//@   ensures[unknown_shard] !has(shardAssignment.Shards, shardID) ==> err != nil
+//@   ensures[leader_is_alive_replica] err == nil ==> (has(shardAssignment.Shards, shardID) && has(liveNodes, leader) && models.inReplicas(shardAssignment.Shards[shardID], leader))
+//@   ensures[first_alive] err == nil ==> exists(i, 0, len(shardAssignment.Shards[shardID].Replicas), shardAssignment.Shards[shardID].Replicas[i] == leader && forall(k, 0, i, !has(liveNodes, shardAssignment.Shards[shardID].Replicas[k])))
+//@   ensures[error_iff_no_alive_replica] has(shardAssignment.Shards, shardID) ==> ((err != nil) == forall(i, 0, len(shardAssignment.Shards[shardID].Replicas), !has(liveNodes, shardAssignment.Shards[shardID].Replicas[i])))
+//@   loop 1 invariant len(liveReplicaNodes.Replicas) >= 0
+//@   loop 1 invariant len(liveReplicaNodes.Replicas) == 0 ==> forall(k, 0, rangeindex + 1, !has(liveNodes, replicas.Replicas[k]))
+//@   loop 1 invariant len(liveReplicaNodes.Replicas) > 0 ==> exists(i, 0, rangeindex + 1, replicas.Replicas[i] == liveReplicaNodes.Replicas[0] && has(liveNodes, replicas.Replicas[i]) && forall(k, 0, i, !has(liveNodes, replicas.Replicas[k])))
+//@ end
